@@ -97,7 +97,9 @@ func (r *MMapReader) SeekNext(offset uint64) (uint64, []byte, error) {
 				}
 			}
 			if ix-i < len(MagicNumberSeparatorLongBytes) {
-				i = ix + 1
+				// only position i is ruled out as a marker start: a partial match may be followed
+				// directly by the real marker (e.g. a payload ending in 0x91), so we must not skip ahead
+				i++
 				continue
 			}
 
